@@ -241,17 +241,21 @@ def line_end_guards(ctx, f):
              'separator" and both guard the empty item list')
     sites = []
     for n in ast.walk(f.node):
-        if isinstance(n, ast.Compare) and isinstance(n.ops[0], ast.NotIn) \
+        if isinstance(n, ast.Compare) and \
+                isinstance(n.ops[0], (ast.NotIn, ast.In)) \
                 and isinstance(n.left, ast.Subscript) and \
-                const(n.left.slice) == -1:
+                const(n.left.slice) == -1 and \
+                isinstance(n.comparators[0], (ast.List, ast.Tuple)):
+            # `len(x) == 0 or x[-1] not in [..]`  /  `x and x[-1] in [..]`
             guarded = False
             p = getattr(n, '_parent', None)
-            if isinstance(p, ast.BoolOp) and isinstance(p.op, ast.Or):
+            want = ast.Or if isinstance(n.ops[0], ast.NotIn) else ast.And
+            lst = unparse(n.left.value)
+            if isinstance(p, ast.BoolOp) and isinstance(p.op, want):
                 for v in p.values:
                     if v is n:
                         break
-                    if 'len(' in unparse(v) and \
-                            unparse(n.left.value) in unparse(v):
+                    if lst in unparse(v):
                         guarded = True
             sites.append((n, guarded, len(n.comparators[0].elts)))
     ctx.floor('trailing-separator tests in _exec_print', len(sites), 2)
